@@ -913,7 +913,7 @@ theorem addVar_step (d : Dialect) : ∀ (n : Nat) (w : Val β), w.depth < n → 
     | rsub text vars =>
       simp only [Val.depth] at hd
       simp only [addVar, spec] at hok ⊢
-      cases hb : (d == Dialect.dollar && (retemplate d 1 vars.length text).contains '$')
+      cases hb : (d == Dialect.dollar && ((retemplate d 1 vars.length text).contains '$' || qDigit (retemplate d 1 vars.length text)))
       · simp only [hb, Bool.false_eq_true, if_false] at hok ⊢
         split
         · rename_i hc
